@@ -22,12 +22,18 @@ func runC01(r *engine.Run) {
 	r.Rule("DEP-absent", "deleting at an exhausted path on a branch returns ErrValueNotPresent under a test of the branch's HasValue(); deleteAtNode's leaf arm returns ErrValueNotPresent when the path comparison fails; delete of a nil key returns ErrValueNotPresent")
 	r.Rule("DOM-ext-nonempty", "every construction of an extension node (NewExtensionNode, insertExtension, store to ExtensionNode.Path in the trie operations) receives a path established non-empty: a literal/append/concat with at least one element, a prefix under a dominating len != 0 test, a suffix X[k:] under a dominating len(X) != k test, an existing extension's path, or a parameter that is non-empty at every call site; an empty-path extension makes its subtree unreachable for lookups")
 	r.Rule("FRESH-node", "see C03: no trie operation writes in place to node memory shared with the store, the node cache, a pending change or a caller (aliasing changes what other lookups return)")
+	r.Rule("WHO-livedelete", "see C04: a node the rebuilt trie still references is never removed from the store (every path below it would become unreadable)")
+	r.Rule("DOM-lift", "liftOnlyChild (which replaces a branch by its only child and does not carry a value) is called only with a branch that provably holds no value: SetValue(nil) on that object dominates the call, or it is a clone of a branch whose HasValue() tested false on every path to the call")
+	r.Rule("AGREE-fields", "see C14: writer and reader of each node encoding agree on the separator discipline and field order (a node that decodes to something other than what was stored makes lookups on a persistent store return another value)")
 	r.NotDec = append(r.NotDec, "that lookups return the last stored value for every history (path arithmetic, slicing, which child is lifted)", "hex validation of Insert/Delete paths (outside the property's quantifier)")
 	exhU(r)
 	domSize(r)
 	depAbsent(r)
 	domExtNonEmpty(r, "DOM-ext-nonempty")
 	freshNode(r, "C01")
+	whoLiveDelete(r, "WHO-livedelete")
+	domLift(r, "DOM-lift")
+	agreeFields(r)
 }
 
 var nodeKinds = []string{"ExtensionNode", "FullNode", "LeafNode"}
